@@ -98,6 +98,7 @@ def work(job):
             datas.append(inputs.random_walk(case.dfa, rng, rng.randint(2, 7 if tier == "quick" else 9)))
         for _ in range(3 if tier == "quick" else 8):
             datas.append(inputs.random_walk(case.dfa, rng, rng.randint(10, 40)))
+        datas += inputs.extra(prog)
         for data in datas:
             n = len(data)
             if n == 0:
